@@ -41,6 +41,34 @@ def model_check(ctx, cases):
     return bad
 
 
+def eval_block(ctx, idx, b):
+    txt = ("From Coq Require Import List String NArith.\nImport ListNotations.\n"
+           "From BD.Graph Require Import Kahn Accept AcceptCheck.\n"
+           "Definition obs : list nat := [%s].\n"
+           "Definition M := Eval vm_compute in sweep_from %d %s %d%%N obs.\nPrint M.\n") % (
+               "; ".join(b["verdicts"]), b["n"], "true" if b["loops"] else "false", b["start"])
+    rc, out, dt = vlib.coq_eval(ctx.scratch, "block_c14_%d" % idx, txt)
+    if rc != 0:
+        return None, out[-1500:]
+    return vlib.coq_list_result(out, "M"), None
+
+
+def mask_case(b, m):
+    """The graph of edge mask m, as the driver's fromMask builds it."""
+    n, loops = b["n"], b["loops"]
+    names = ["s%d" % i for i in range(n)]
+    deps = [[] for _ in range(n)]
+    bit = 0
+    for i in range(n):
+        for j in range(n):
+            if i == j and not loops:
+                continue
+            if (m >> bit) & 1:
+                deps[i].append("s%d" % j)
+            bit += 1
+    return {"stream": b["stream"], "k": m, "names": names, "deps": deps}
+
+
 def nontrivial_key(c):
     return (tuple(c["names"]), tuple(tuple(d) for d in c["deps"]))
 
@@ -86,8 +114,27 @@ def run(ctx, replay_cases=None, agent_seed=None):
         cases = vlib.read_jsonl(p)
     else:
         cases = replay_cases
-    # corpus first
-    corpus = os.path.join(vlib.VERIF, "corpus", "C14.jsonl")
+    blocks = [c for c in cases if c.get("compact")]
+    cases = [c for c in cases if not c.get("compact")]
+    nblock = 0
+    if blocks:
+        with ThreadPoolExecutor(max_workers=14) as ex:
+            bres = list(ex.map(lambda t: eval_block(ctx, t[0], t[1]), enumerate(blocks)))
+        for b, (res, err) in zip(blocks, bres):
+            nblock += len(b["verdicts"])
+            if res is None:
+                ctx.fail("correspondence", "the model could not be evaluated on a block of graphs (coqc failed)", {"log": err})
+                continue
+            for (m, mv) in res:
+                c = mask_case(b, m)
+                c["verdict"] = int(b["verdicts"][m - b["start"]])
+                ctx.fail("correspondence", "model verdict %d differs from implementation verdict %d" % (mv, c["verdict"]), c)
+            for off, (v, d) in enumerate(zip(b["verdicts"], b["dfs"])):
+                if v == "3" or (v == "0") != (d == "0"):
+                    c = mask_case(b, b["start"] + off)
+                    c["verdict"], c["dfs"] = int(v), int(d)
+                    ctx.fail("monitor", "admission verdict of the implementation contradicts the property: impl=%s, "
+                             "independent (names resolve and acyclic)=%s [0 ok, 1 missing, 2 cycle]" % (v, d), shrink(tool, ctx, c))
     streams = {}
     seen = set()
     for c in cases:
@@ -108,9 +155,11 @@ def run(ctx, replay_cases=None, agent_seed=None):
     verd = {}
     for c in cases:
         verd[c["verdict"]] = verd.get(c["verdict"], 0) + 1
-    ctx.cov["evaluations"] = len(cases)
-    ctx.cov["traces_validated_against_impl"] = len(cases)
-    ctx.cov["distinct_nontrivial"] = len(seen)
+    ctx.cov["evaluations"] = len(cases) + nblock
+    ctx.cov["traces_validated_against_impl"] = len(cases) + nblock
+    # every graph of an exhaustive block is distinct; all but the edgeless one are non-trivial
+    ctx.cov["distinct_nontrivial"] = len(seen) + max(0, nblock - len({b["stream"] for b in blocks}))
+    ctx.cov["exhaustive_blocks"] = {st: sum(len(b["verdicts"]) for b in blocks if b["stream"] == st) for st in {b["stream"] for b in blocks}}
     ctx.cov["rule"] = ("graphs fed to the real scheduler.NewExecutionGraph and to the Coq `gaccept`: every digraph with "
                        "self-loops on <=3 nodes, n=4 (all 2^16 thorough / seeded sample quick), loop-free n=5 (all 2^20 "
                        "thorough / sample quick), random graphs on <=40 nodes (forward DAGs, duplicated entries, back "
